@@ -121,11 +121,22 @@ def run_programs(ctx, exe, progs, n, seed, what, label, fix=1, maxsteps=30000, t
         for p in parts:
             if os.path.exists(p):
                 f.write(open(p).read())
+    sites = {}
+    for line in open(whole):
+        m = re.match(r'\{"e":"((?:Pl|Dr)\w+)"', line)
+        if m:
+            sites[m.group(1)] = sites.get(m.group(1), 0) + 1
+    ctx.cov.setdefault('trace_sites', {})[label] = sites
     if os.path.getsize(whole):
         ctx.validate(SPEC, 'PipelineTrace.tla', 'PipelineTrace.cfg', whole, what + ' [' + label + ']',
                      executions=tot['completed'], label=label, timeout=timeout)
     cleanup()
     return whole, tot
+
+
+def traces_only():
+    """mutation testing of the dispenso code only needs the code-dependent engines (E3/E4); E1 does not read the code"""
+    return os.environ.get('VERIF_PIPE_TRACES_ONLY') == '1'
 
 
 def cleanup():
